@@ -647,7 +647,7 @@ SUPPORT_INLINE constexpr T msb_mask(const N& n) noexcept {
   using U = std_uint_t<sizeof(T)>;
   if constexpr (sizeof(U) < sizeof(uintptr_t)) {
     // Prevent undefined behavior by using a larger type than T.
-    return T(bit_ones<uintptr_t> >> (bit_size_of<uintptr_t> - n));
+    return T((bit_ones<uintptr_t> << (bit_size_of<U> - n)) & uintptr_t(bit_ones<U>));
   }
   else {
     // Prevent undefined behavior by performing `n & (num_bits - 1)` so it's always within the range.
